@@ -23,7 +23,7 @@ def shards(tier):
 
 
 def required_classes(tier):
-    return ["soak:distinct-keys", "mutable-buffer-reused", "extract", "expand", "expand:L=0", "expand:L=8160", "keygen", "keygen:retry(W5)", "keygen:determinism"]
+    return ["returned-buffer-mutated", "soak:distinct-keys", "mutable-buffer-reused", "extract", "expand", "expand:L=0", "expand:L=8160", "keygen", "keygen:retry(W5)", "keygen:determinism"]
 
 
 LEN_Q = [0, 1, 31, 32, 33, 63, 64, 65, 127, 128, 129, 300]
@@ -143,6 +143,25 @@ def run(rec):
             call(hm.hkdf_extract, buf, ikm)
             call(hm.hkdf_extract, bytes(buf), ikm)
             call(hm.hkdf_expand, buf, info, 42)
+    # the caller wipes / changes the RETURNED buffer and asks again: results must be fresh objects (or immutable), never an alias of
+    # something the library keeps
+    for rep in range(3 if quick else 30):
+        i += 1
+        if not rec.mine(i):
+            continue
+        prk, info, L = rng.randbytes(32), rng.randbytes(rng.choice([0, 6, 50])), rng.choice([32, 48, 64, 100])
+        rec.case("returned-buffer-mutated", ("retmut", prk, info, L), sample={"fn": "hkdf_expand", "what": "returned bytearray zeroised by the caller, same call repeated"})
+        for step in range(3):
+            st, out = call(hm.hkdf_expand, prk, info, L)
+            if st == "ok" and isinstance(out, (bytearray, list)):
+                for j in range(len(out)):
+                    out[j] = 0
+            st2, ex = call(hm.hkdf_extract, prk, info)
+            if st2 == "ok" and isinstance(ex, bytearray):
+                ex[:] = b"\xff" * len(ex)
+        for S_ in suites:
+            st, sk1 = call(S_.KeyGen, prk, info)
+            st, sk2 = call(S_.KeyGen, prk, info)
     # soak: distinct keys through extract / expand, first ones re-probed
     if rec.shard == 0 or not quick:
         from .common import soak_size, soak_then_reprobe
